@@ -18,13 +18,13 @@ def plan_for(ctx):
                 dict(fam="inlist", tbl="A", n=70), dict(fam="inlist", tbl="B", n=60),
                 dict(fam="case", tbl="A", n=80), dict(fam="case", tbl="B", n=50),
                 dict(fam="guard", tbl="A", n=40), dict(fam="guard", tbl="B", n=30),
-                dict(fam="like", tbl="A", n=70)]
+                dict(fam="like", tbl="A", n=70), dict(fam="rxcore", tbl="C", n=100000), dict(fam="rx", tbl="C", n=40)]
     return [dict(fam="rand", tbl="A", n=2500, d=3), dict(fam="rand", tbl="A", n=1000, d=4), dict(fam="rand", tbl="A", n=500, d=2),
             dict(fam="rand", tbl="B", n=1500, d=3), dict(fam="rand", tbl="B", n=500, d=4),
             dict(fam="inlist", tbl="A", n=100000), dict(fam="inlist", tbl="B", n=100000),
             dict(fam="case", tbl="A", n=100000), dict(fam="case", tbl="B", n=100000),
             dict(fam="guard", tbl="A", n=100000), dict(fam="guard", tbl="B", n=100000),
-            dict(fam="like", tbl="A", n=100000)]
+            dict(fam="like", tbl="A", n=100000), dict(fam="rxcore", tbl="C", n=100000), dict(fam="rx", tbl="C", n=2500)]
 
 
 def finding_key(case, r):
